@@ -44,7 +44,8 @@ def _run(args):
             out.append(("ANALYSIS-ERROR", "", "", str(res.incomplete)))
         from cxa.report import confirmed_lost
         lm = confirmed_lost(p, res)
-        if lm and not res.findings:
+        known_ = {f"{k['rule']}|{k['key']}" for k in load_known() if k.get("status") == "known"}
+        if lm and not [f for f in res.findings if f"{f.rule}|{f.key}" not in known_]:
             out.append(("ANALYSIS-ERROR", "", "", lm))
         return p, out
     except AnalysisError as e:
